@@ -20,7 +20,7 @@
 #include <stdlib.h>
 #include "C06/tree.h"
 #include "C06/env.h"
-#include "C06/get_path_contract.h"
+#include "C06/get_path_msg_contract.h"
 
 /* only main() uses them; it is not part of this harness */
 #define main rdsquashfs_main
